@@ -290,3 +290,31 @@ func TestF13_BuildFuncNilInput(t *testing.T) {
 		}
 	})
 }
+
+type I1 interface{ I1() }
+
+func (T1) I1() {}
+
+// F14 (C01): an interface-typed parameter with subtype "s" receives a value that a
+// converter produced for the same interface type with subtype "t".
+func TestF14_InterfaceSubtypeIgnored(t *testing.T) {
+	f := am.MustFunc(am.NewFunc(func(in struct {
+		am.Struct
+		X I1 `argmapper:",typeOnly,subtype=s"`
+	}) int {
+		return in.X.(T1).ID
+	}))
+	prov := func() struct {
+		am.Struct
+		X I1 `argmapper:",typeOnly,subtype=t"`
+	} {
+		return struct {
+			am.Struct
+			X I1 `argmapper:",typeOnly,subtype=t"`
+		}{X: T1{9}}
+	}
+	res := f.Call(am.Converter(prov))
+	if res.Err() == nil {
+		t.Fatalf("parameter I1:s was satisfied by an I1:t output (token %v)", res.Out(0))
+	}
+}
